@@ -289,6 +289,8 @@ func (r *runner) history(cfg histCfg) {
 				w := wit().(stepWitness)
 				d1, d2 := dump(next), dump(nb)
 				violate("header-vs-block/"+f+"/"+e.String(), fmt.Sprintf("after the same header at height %d ApplyHeader and ApplyBlock disagree on %s: header-only %+v, full block %+v", h, f, d1, d2), w)
+				// the two chains have diverged: everything after this would only repeat the finding
+				withBlocks, nb = false, consensus.State{}
 			}
 			bs = nb
 		}
